@@ -348,12 +348,8 @@ func judge(t *tree, out *runOut, rep *mon.Reporter) (st stats, order string) {
 			}
 		}
 		if class, text := matchObs(rm.strands, obs, lg.sawEOF); class != "" {
-			// input class: a reader whose chunks are interface values; a converter on the way that
-			// is handed a nil interface value
+			// input class: a converter on the way is handed a nil interface value
 			sfx := ""
-			if rm.et.iface() {
-				sfx = "/interface-elem"
-			}
 			if class == "foreign-error" {
 				for _, s := range rm.strands {
 					if s.NilIn && !s.Pan {
